@@ -52,11 +52,15 @@ where
     write_n_allele(writer, record.alternate_bases().len())?;
 
     let samples = record.samples()?;
-    write_n_fmt_sample(
-        writer,
-        header.sample_names().len(),
-        samples.column_names(header).count(),
-    )?;
+
+    // The FORMAT block is only written when the record has samples.
+    let format_count = if samples.is_empty() {
+        0
+    } else {
+        samples.column_names(header).count()
+    };
+
+    write_n_fmt_sample(writer, header.sample_names().len(), format_count)?;
 
     write_ids(writer, record.ids())?;
     write_bases(writer, record.reference_bases(), record.alternate_bases())?;
